@@ -83,6 +83,8 @@ def render_stmt(rng, st, files=None):
     if k == 'instr':
         return st['mn'] + (' ' + ', '.join(rexpr(rng, a[0]) for a in st['args']) if st['args'] else '')
     if k == 'cond':
+        if st['d'] in ('ifdef', 'ifndef'):
+            return '#' + st['d'] + ' ' + st['s']
         return '#' + st['d'] + (' ' + str(st['c']['lhs'][1]) if 'c' in st else '')
     if k == 'nib':
         return 'ldn ' + str(st['v'])
